@@ -242,7 +242,10 @@ impl Drop for Payload {
     fn drop(&mut self) {
         // the final drop reads what every owner wrote: all earlier drops must
         // happen-before this one, otherwise loom reports a causality violation
-        self.cell.with(|p| unsafe { std::ptr::read(p) });
+        // (not while a failure of the iteration unwinds: the cell may be mid-access)
+        if !std::thread::panicking() {
+            self.cell.with(|p| unsafe { std::ptr::read(p) });
+        }
         let t = CUR_THREAD.with(|t| *t.borrow());
         let mut c = lock(&self.shared.cur);
         if let Some(d) = c.arc_drops.get_mut(self.x) {
@@ -272,6 +275,10 @@ struct Objs {
     mailbox: Vec<StdMutex<Vec<(usize, LArc)>>>,
     tracks: Vec<StdMutex<Option<loom::alloc::Track<u8>>>>,
     allocs: Vec<StdMutex<Option<SendPtr>>>,
+    /// loom-visible "slot is full" flags (RMW-only locations): who empties a slot is decided by
+    /// loom's schedule, not by the invisible table
+    track_flags: Vec<AtomBox>,
+    alloc_flags: Vec<AtomBox>,
 }
 
 const LAYOUT: std::alloc::Layout = unsafe { std::alloc::Layout::from_size_align_unchecked(8, 8) };
@@ -601,27 +608,29 @@ impl<'a> Th<'a> {
             TrackNew { k } => {
                 let t = loom::alloc::Track::new(k);
                 *lock(&o.tracks[k as usize]) = Some(t);
+                unsafe { &*o.track_flags[k as usize].0.get() }.swap(1, StdOrd::SeqCst);
                 None
             }
-            TrackDrop { k } => {
-                let t = lock(&o.tracks[k as usize]).take();
+            TrackDrop { k } | TrackForget { k } => {
+                let full = unsafe { &*o.track_flags[k as usize].0.get() }.swap(0, StdOrd::SeqCst) == 1;
+                let t = if full { lock(&o.tracks[k as usize]).take() } else { None };
                 let r = t.is_some() as i64;
-                drop(t);
-                Some(r)
-            }
-            TrackForget { k } => {
-                let t = lock(&o.tracks[k as usize]).take();
-                let r = t.is_some() as i64;
-                std::mem::forget(t);
+                if matches!(op, TrackForget { .. }) {
+                    std::mem::forget(t);
+                } else {
+                    drop(t);
+                }
                 Some(r)
             }
             Alloc { k } => {
                 let p = unsafe { loom::alloc::alloc(LAYOUT) };
                 *lock(&o.allocs[k as usize]) = Some(SendPtr(p));
+                unsafe { &*o.alloc_flags[k as usize].0.get() }.swap(1, StdOrd::SeqCst);
                 None
             }
             Dealloc { k } => {
-                let p = lock(&o.allocs[k as usize]).take();
+                let full = unsafe { &*o.alloc_flags[k as usize].0.get() }.swap(0, StdOrd::SeqCst) == 1;
+                let p = if full { lock(&o.allocs[k as usize]).take() } else { None };
                 match p {
                     Some(p) => {
                         unsafe { loom::alloc::dealloc(p.0, LAYOUT) };
@@ -710,6 +719,8 @@ fn build_objs(sh: &StdArc<Shared>) -> Objs {
         mailbox: (0..n).map(|_| StdMutex::new(vec![])).collect(),
         tracks: (0..p.n_tracks()).map(|_| StdMutex::new(None)).collect(),
         allocs: (0..p.n_tracks()).map(|_| StdMutex::new(None)).collect(),
+        track_flags: (0..p.n_tracks()).map(|_| AtomBox(std::cell::UnsafeCell::new(AtomicUsize::new(0)))).collect(),
+        alloc_flags: (0..p.n_tracks()).map(|_| AtomBox(std::cell::UnsafeCell::new(AtomicUsize::new(0)))).collect(),
     };
     for (x, owner) in p.arc_owner.iter().enumerate() {
         let a = LArc::new(Payload { x, cell: loom::cell::UnsafeCell::new(0), shared: sh.clone() });
